@@ -36,6 +36,12 @@ def build(spec):
         terms.append(-((b - float(spec['centers'][i])) * (b - float(spec['centers'][i]))))
     gate = ex.Beta(spec['gate'], 1.0, None, None, 0)
     terms.append(ex.log(gate))
+    if spec.get('nan_param'):
+        # value 0 whatever the parameter, but at 0 the derivative is inf - inf = NaN (finite value, non-finite derivative)
+        from biogeme.expressions.unary_expressions import PowerConstant
+
+        m = ex.Beta(spec['nan_param'], 1.0, None, None, 0)
+        terms.append(PowerConstant(m, 0.5) - PowerConstant(m, 0.5))
     terms.append(0 * ex.Variable('x'))
     f = ex.bioMultSum(terms)
     b = bio.BIOGEME(d, f, save_iterations=True, generate_html=False, generate_pickle=False)
@@ -65,7 +71,9 @@ def main():
             mark(f'eval-{k + 1}')
             try:
                 r = b.calculate_likelihood_and_derivatives(vec, scaled=False, hessian=False, bhhh=False)
-                out.append(dict(k=k + 1, f=repr(float(r.function)), names=free))
+                import numpy as np
+
+                out.append(dict(k=k + 1, f=repr(float(r.function)), gfinite=bool(np.all(np.isfinite(np.asarray(r.gradient, dtype=float)))), names=free))
             except Exception as e:  # noqa
                 out.append(dict(k=k + 1, error=f'{type(e).__name__}: {e}'[:200]))
         mark('end')
